@@ -333,5 +333,103 @@ var (
 func TestProp(t *testing.T)       { ev.RunProp(t, "C20", v5Unit) }
 func TestPropLegacy(t *testing.T) { ev.RunProp(t, "C20", legacyUnit) }
 func TestReplay(t *testing.T) {
-	ev.Replay(t, map[string]ev.Replayer{v5Unit.Name: v5Unit.Replayer(), legacyUnit.Name: legacyUnit.Replayer()})
+	ev.Replay(t, map[string]ev.Replayer{v5Unit.Name: v5Unit.Replayer(), legacyUnit.Name: legacyUnit.Replayer(), manyUnit.Name: manyUnit.Replayer()})
+}
+
+// ---------- many patch files under a low descriptor limit ----------
+
+// ManyCase: n one-operation patch files, applied by the command while it may
+// hold at most `limit` file descriptors (set with ulimit in a wrapper shell).
+// A command that keeps every patch file open until it exits runs out of
+// descriptors long before a command that reads and closes them one by one.
+type ManyCase struct {
+	Binary string `json:"binary"`
+	N      int    `json:"patch_files"`
+	Limit  int    `json:"descriptor_limit"`
+}
+
+func checkMany(c ManyCase) ev.Verdict {
+	if c.N < 1 || c.N > 2000 || c.Limit < 32 || c.Limit > 4096 {
+		return ev.Excluded("sizes outside the unit")
+	}
+	bin := os.Getenv("VERIF_CLI_" + strings.ToUpper(c.Binary))
+	if bin == "" {
+		return ev.Excluded("binary not built", "infrastructure")
+	}
+	dir, err := os.MkdirTemp(".", "many")
+	if err != nil {
+		return ev.Excluded("could not create the patch files: "+err.Error(), "infrastructure")
+	}
+	defer os.RemoveAll(dir)
+	doc := []byte(`{"start":true}`)
+	want := doc
+	args := []string{"-c", `ulimit -n "$1"; shift; exec "$@"`, "sh", fmt.Sprint(c.Limit), bin}
+	for i := 0; i < c.N; i++ {
+		text := fmt.Sprintf(`[{"op":"add","path":"/k%d","value":%d}]`, i, i)
+		p := filepath.Join(dir, fmt.Sprintf("p%d.json", i))
+		if err := os.WriteFile(p, []byte(text), 0o644); err != nil {
+			return ev.Excluded("could not create the patch files: "+err.Error(), "infrastructure")
+		}
+		args = append(args, "-p", p)
+		var perr error
+		if pn := ev.Safe(func() {
+			if c.Binary == "legacy" {
+				var pt jl.Patch
+				if pt, perr = jl.DecodePatch([]byte(text)); perr == nil {
+					want, perr = pt.Apply(want)
+				}
+			} else {
+				var pt jp.Patch
+				if pt, perr = jp.DecodePatch([]byte(text)); perr == nil {
+					want, perr = pt.Apply(want)
+				}
+			}
+		}); pn != nil || perr != nil {
+			return ev.Excluded("the library itself fails on this input", "library-panic")
+		}
+	}
+	ctx, cancel := context.WithTimeout(context.Background(), 120*time.Second)
+	defer cancel()
+	cmd := exec.CommandContext(ctx, "sh", args...)
+	cmd.Stdin = bytes.NewReader(doc)
+	var so, se bytes.Buffer
+	cmd.Stdout, cmd.Stderr = &so, &se
+	rerr := cmd.Run()
+	if ctx.Err() != nil {
+		return ev.Excluded("timeout running the command", "infrastructure")
+	}
+	v := ev.Verdict{Classes: []string{c.Binary, fmt.Sprintf("files=%d", c.N), fmt.Sprintf("limit=%d", c.Limit)}, NonTrivial: c.N > c.Limit}
+	if rerr != nil {
+		v.Err = fmt.Errorf("%d valid patch files under a limit of %d descriptors: the command failed (%v); stderr: %s", c.N, c.Limit, rerr, headOf(se.String(), 400))
+		return v
+	}
+	if !bytes.Equal(so.Bytes(), want) {
+		v.Err = fmt.Errorf("%d valid patch files: stdout differs from applying them in order with the library\n got:  %s\n want: %s", c.N, headOf(so.String(), 300), headOf(string(want), 300))
+	}
+	return v
+}
+
+func headOf(s string, n int) string {
+	if len(s) > n {
+		return s[:n]
+	}
+	return s
+}
+
+var manyUnit = ev.Unit[ManyCase]{
+	Name:  "many-patch-files",
+	Rule:  "enumerated: both commands x (40, 150, 400) valid one-operation patch files applied to a small document while the command may hold at most 64 / 100 file descriptors (ulimit -n in a wrapper shell); oracle: exit 0 and stdout byte-identical to applying the patches in order with the library; non-trivial = more files than descriptors",
+	Check: checkMany,
+}
+
+func TestManyFiles(t *testing.T) {
+	var cases []ManyCase
+	for _, b := range []string{"v5", "legacy"} {
+		for _, n := range []int{40, 150, 400} {
+			for _, l := range []int{64, 100} {
+				cases = append(cases, ManyCase{b, n, l})
+			}
+		}
+	}
+	ev.RunCases(t, "C20", manyUnit, cases)
 }
